@@ -88,34 +88,39 @@ def spanDigits : Str → Str × Str
   | [] => ([], [])
   | c :: r => if isDigit c then ((spanDigits r).1.cons c, (spanDigits r).2) else ([], c :: r)
 
+/-- an optional leading sign: `(negative, rest)` -/
+def stripSign : Str → Bool × Str
+  | 45 :: r => (true, r)
+  | 43 :: r => (false, r)
+  | r => (false, r)
+
+/-- the exponent part of a float literal after the mantissa: `none` = malformed,
+`some (negative, e)`; the empty rest is exponent 0 -/
+def parseExp (s : Str) : Option (Bool × Nat) :=
+  match s with
+  | [] => some (false, 0)
+  | c :: r =>
+    if c = 69 ∨ c = 101 then
+      let sg := stripSign r
+      if sg.2 ≠ [] ∧ allDigits sg.2 = true then some (sg.1, digitsVal sg.2) else none
+    else none
+
 /-- `str::parse::<f64>` on the alphabet `0-9 . + - e E` (what `read_number` can put into its buffer),
 as an exact decimal: `[sign] digits* [. digits*] [(e|E) [sign] digits+]`, at least one mantissa digit.
 Result `(negative, num, den)` with value `± num/den`. -/
 def parseF64 (s : Str) : Option (Bool × Nat × Nat) :=
-  let (neg, s1) := match s with
-    | 45 :: r => (true, r)
-    | 43 :: r => (false, r)
-    | r => (false, r)
-  let (ip, s2) := spanDigits s1
-  let (fp, s3) := match s2 with
+  let sg := stripSign s
+  let ipr := spanDigits sg.2
+  let fpr := match ipr.2 with
     | 46 :: r => spanDigits r
     | r => ([], r)
-  if ip = [] ∧ fp = [] then none else
-  let mant := digitsVal (ip ++ fp)
-  let scale := fp.length
-  match s3 with
-  | [] => some (neg, mant, 10 ^ scale)
-  | c :: r =>
-    if c = 69 ∨ c = 101 then
-      let (eneg, r1) := match r with
-        | 45 :: q => (true, q)
-        | 43 :: q => (false, q)
-        | q => (false, q)
-      if r1 ≠ [] ∧ allDigits r1 = true then
-        let e := digitsVal r1
-        if eneg then some (neg, mant, 10 ^ (scale + e)) else some (neg, mant * 10 ^ e, 10 ^ scale)
-      else none
-    else none
+  if ipr.1 = [] ∧ fpr.1 = [] then none else
+  let mant := digitsVal (ipr.1 ++ fpr.1)
+  let scale := fpr.1.length
+  match parseExp fpr.2 with
+  | none => none
+  | some (eneg, e) =>
+    if eneg then some (sg.1, mant, 10 ^ (scale + e)) else some (sg.1, mant * 10 ^ e, 10 ^ scale)
 
 /-- the `match state` after the loop of `read_number` -/
 def finishNumber (st : Nat) (buf : Str) (rest : Str) : Lexed :=
@@ -245,16 +250,18 @@ def css2Text (ip fp u : Str) : Str := ip ++ (if fp = [] then [] else 46 :: fp) +
 def css2Value (ip fp : Str) (mult : Nat) : Nat :=
   roundHalfAway (digitsVal (ip ++ fp) * mult) (10 ^ fp.length)
 
+/-- the optional fraction `(\.\d+)?`: `(fraction digits, rest, well-formed)` -/
+def css2Frac : Str → Str × Str × Bool
+  | 46 :: r => (r.takeWhile isDigit, r.dropWhile isDigit, !(r.takeWhile isDigit).isEmpty)
+  | r => ([], r, true)
+
 /-- recogniser: `some ms` iff the whole string is in the language -/
 def css2 (s : Str) : Option Nat :=
   let ip := s.takeWhile isDigit
-  let r1 := s.dropWhile isDigit
-  let (fp, r2, ok) := match r1 with
-    | 46 :: r => (r.takeWhile isDigit, r.dropWhile isDigit, !(r.takeWhile isDigit).isEmpty)
-    | r => ([], r, true)
-  if ok && !(ip.isEmpty && fp.isEmpty) then
-    match css2Units.lookup r2 with
-    | some m => some (css2Value ip fp m)
+  let fr := css2Frac (s.dropWhile isDigit)
+  if fr.2.2 && !(ip.isEmpty && fr.1.isEmpty) then
+    match css2Units.lookup fr.2.1 with
+    | some m => some (css2Value ip fr.1 m)
     | none => none
   else none
 
